@@ -326,6 +326,29 @@ pub fn problem_lin(at_rest: bool) -> BoxedStrategy<(Problem, Vec<f64>)> {
         .boxed()
 }
 
+/// solutions relaxing to a steady state from a distance of order one: every block decays (a in [-1, -0.2]),
+/// optionally rotating; (problem, initial state, slowest decay rate)
+pub fn problem_relaxing() -> BoxedStrategy<(Problem, Vec<f64>, f64)> {
+    let block = prop_oneof![(gen::fl(-1.0, -0.2), Just(0.0)), (gen::fl(-1.0, -0.2), gen::fl(0.5, 2.0))];
+    (proptest::collection::vec(block, 1..=3), vecn(16, gen::fl(-1.0, 1.0)), vecn(4, gen::fl(-2.0, 2.0)), vecn(4, gen::fl(-2.0, 2.0)))
+        .prop_map(|(mut blocks, mix, center, off)| {
+            let mut d = 0;
+            blocks.retain(|b| {
+                let s = if b.1 == 0.0 { 1 } else { 2 };
+                if d + s <= 4 {
+                    d += s;
+                    true
+                } else {
+                    false
+                }
+            });
+            let mu = blocks.iter().map(|b| -b.0).fold(f64::INFINITY, f64::min);
+            let y0: Vec<f64> = (0..d).map(|i| center[i] + off[i]).collect();
+            (Problem::Lin { blocks, mix, center: center[..d].to_vec() }, y0, mu)
+        })
+        .boxed()
+}
+
 pub fn problem_forced() -> BoxedStrategy<(Problem, Vec<f64>)> {
     (1usize..=4)
         .prop_flat_map(|d| (proptest::collection::vec(0u8..2, d), vecn(d, gen::fl(0.1, 2.0)), vecn(d, gen::fl(0.3, 3.0)), vecn(d, gen::fl(-2.0, 2.0)), vecn(d, gen::fl(-2.0, 2.0))))
